@@ -318,12 +318,12 @@ func genTree09x(rng *Rng, depth int, top bool, all *[]c09Res) *c09Tree {
 		// few names: collisions after the move are frequent enough, collisions before it stay rare
 		t.Own = append(t.Own, genRes09(rng, rng.Pick(c09Names), &sas))
 	}
-	if len(*all) > 0 && rng.Chance(22) {
+	*all = append(*all, t.Own...)
+	if len(*all) > 0 && rng.Chance(25) {
 		if tw, ok := twin09(rng, (*all)[rng.Intn(len(*all))]); ok {
 			t.Own = append(t.Own, tw)
 		}
 	}
-	*all = append(*all, t.Own...)
 	return t
 }
 
